@@ -514,4 +514,8 @@ func checkC05On(c *Ctx, p *Prog, cfg string) {
 	} else {
 		r.Unk("C05.wait-uses-buffer", "core.WaitAvailableKeys", "-", "anchor not found")
 	}
+	checkC05NewInputBehind(c, p, sfx)
+	if sfx == "" {
+		checkC05EscapeSingle(c)
+	}
 }
